@@ -20,7 +20,7 @@ LOOKALIKE = ["Select2", "count", "ResultParquet", "Zip", "select", "Wheres"]
 
 RULE = (
     "Typed grammar (int / bool / seq / seq-of-seq / result) rendered as source text, every operator drawn in method "
-    "form or function form independently at every depth (sources, lambda bodies, arguments, callee expressions), with look-alike "
+    "form or function form independently at every depth (sources, lambda bodies, arguments, callee expressions, directly as the seed argument of Aggregate), with look-alike "
     "non-operator methods (Select2, count, ResultParquet, Zip, select, Wheres) and non-call attribute references "
     "(x.Select as a value). Non-trivial = >=2 method-form operator calls at different depths AND >=1 look-alike or "
     "attribute reference. Distinct by source text + data."
@@ -32,7 +32,7 @@ ASSUMPTIONS = [
     "Value equality is checked on the LINQ subset with python sequences; CPython is the evaluator.",
 ]
 BUDGET = {"quick": (4, 1200), "thorough": (16, 10000)}
-EXHAUSTIVE_NOTE = "12 operator names + 6 look-alikes x 13 syntactic positions (incl. keyword-argument values, dict values, tuple/list elements, the callee of a call) x method/function form, fully enumerated"
+EXHAUSTIVE_NOTE = "12 operator names + 6 look-alikes x 16 syntactic positions (incl. keyword-argument values, dict values, tuple/list elements, the callee of a call, directly as a positional argument of a method-form / function-form operator call) x method/function form, fully enumerated"
 
 
 class SeqX(pyeval.Seq):
@@ -178,7 +178,11 @@ def _expr(draw, ty, depth, ivars, svars):
     if k == 5:
         return _call(draw, draw(st.sampled_from(["Sum", "Max", "Min"])), draw(_expr("S", d, ivars, svars)), [])
     if k == 6:
-        return _call(draw, "Aggregate", draw(_expr("S", d, ivars, svars)), ["0", "lambda acc, v: acc + v"])
+        # the seed is an arbitrary int expression: an operator call can be DIRECTLY a positional argument of an operator call
+        init = draw(st.sampled_from(["0", None, None]))
+        if init is None:
+            init = _call(draw, draw(st.sampled_from(["Count", "Count", "Sum"])), draw(_expr("S", d, ivars, svars)), []) if draw(st.booleans()) else draw(_expr("I", d, ivars, svars))
+        return _call(draw, "Aggregate", draw(_expr("S", d, ivars, svars)), [init, "lambda acc, v: acc + v"])
     if k == 7:
         return f"({draw(_expr('S', d, ivars, svars))}).count()"
     if k == 8:
@@ -234,6 +238,9 @@ def exhaustive(tier):
         "(lambda z: {X})(1)",
         "[lambda z: {X}][0](1)",
         "ident(lambda z: {X})(1)",
+        "(s0).Aggregate({X}, lambda a, v: a + v)",
+        "Aggregate(s0, {X}, lambda a, v: a + v)",
+        "(s0).Select(lambda v: v).Aggregate({X}, lambda a, v: a + v)",
     ]
     for name, pos, form in itertools.product(OPS + LOOKALIKE, positions, ["m", "f"]):
         a = _ARGS[name]
